@@ -35,7 +35,7 @@ const (
 	rule = "inputs: (a) valid specifications mutated at token level (deletion, duplication, replacement) and byte level (truncation at any byte, byte replacement incl. NUL, non-UTF-8 and control bytes), arbitrary byte strings; " +
 		"(b) pattern strings over the metacharacter alphabet incl. empty, non-ASCII escapes and classes in brackets, plus mutated canonical patterns; (c) command lines (unknown flags, missing values, -h, directories, missing/empty/binary files); " +
 		"(d, thorough) native coverage-guided fuzzing of the same two oracles; oracle: every entry point (spec.Parse, ebnf ast.Parse, ParseAndBuildAST, Spec.DFA, LALRParsingTable, nfa.Parse, regex ast.Parse and both ToDFA) returns without panic, " +
-		"exactly one of result and error is non-nil; the binary exits 0 or 1, never prints a stack trace, and exits non-zero whenever it reports an error; sizes are bounded so that legitimately large automata are not mistaken for hangs (a 20 s watchdog only yields 'inconclusive'); " +
+		"exactly one of result and error is non-nil; the binary exits normally, never prints a stack trace, and exits non-zero whenever it reports an error; sizes are bounded so that legitimately large automata are not mistaken for hangs (a 20 s watchdog only yields 'inconclusive'); " +
 		"non-trivial = input rejected after at least one token/construct was consumed; distinct by input bytes"
 	cyclicKey       = "cyclic-grammar-panic"
 	unproductiveKey = "unproductive-nonterminal-panic"
@@ -465,8 +465,8 @@ func checkCLI(dir string, args []string) (int, error) {
 	if strings.Contains(out, "panic:") || strings.Contains(out, "goroutine ") || strings.Contains(out, "runtime error") {
 		return code, fmt.Errorf("emerge %q prints a Go stack trace (exit status %d):\n%s", args, code, out)
 	}
-	if code != 0 && code != 1 {
-		return code, fmt.Errorf("emerge %q exits with status %d (a crash status):\n%s", args, code, out)
+	if code < 0 || code > 125 {
+		return code, fmt.Errorf("emerge %q is terminated abnormally (status %d):\n%s", args, code, out)
 	}
 	if code != 0 && strings.TrimSpace(out) == "" {
 		return code, fmt.Errorf("emerge %q exits with status %d without any message", args, code)
